@@ -12,7 +12,7 @@ import (
 
 func init() {
 	Register("C06", "Decides structural necessary conditions of the recursion check and of Example() termination: (pair) visit/leave are paired by defer on the success edge; (skip) optional/nullable edges are skipped before anything else, arrays/literals/mixed nodes end the walk, objects are AND, `@a | @b` is OR; (table) the recursive walk must keep using the type table the lookup used - violated today, known finding; (example) the example builder's type expansion is bounded by a counter that is incremented and decremented in pairs; (sep) the example's separators cannot dangle. Does NOT decide both directions of the iff over all reference graphs.",
-		func(c *core.Ctx) { c07copyAs(c, "C06.copy") }, inheritAllRule("C06.inheritall"), c06pair, c06skip, c06table, c06example, c06alt, onceCaptureRule("C06.oncecapture"), sepRule("C06.sep", []string{"notations/jschema"}, 2))
+		func(c *core.Ctx) { c07copyAs(c, "C06.copy") }, inheritAllRule("C06.inheritall"), keepAltsRule("C06.keepalts"), c06pair, c06skip, c06table, c06example, c06alt, onceCaptureRule("C06.oncecapture"), sepRule("C06.sep", []string{"notations/jschema"}, 2))
 }
 
 const recPkg = "(*notations/jschema/checker.recursionChecker)."
